@@ -244,6 +244,7 @@ def run(repo: Repo, rep: Report, tier: str) -> None:
                 rep.check(ok and not rebound, "scp-side", f"{short}.{qualname(c)}", enclosing(c, (ast.stmt,)), f"codec flags read from {obj} = {norm(defs[0].value) if defs else '?'}: an SCP must encode/decode with the transfer syntax of the context the request arrived on (its `context` parameter)", mod=m, node=c)
     rep.floor("service-class codec sites", n_scp, 15)
 
+    check_declared_encoding_mismatch(repo, rep, "same-byte-order")
     # ---- the role the selector filters on is the negotiated one ---------------------------------------
     from ..delegate import delegate
     rep.rule("codec-flags", "every encode / decode call takes all three flags from one transfer-syntax object (C25's rule)")
@@ -355,3 +356,50 @@ def _check_matching_loop(rep, am, fq, lp, lv, cxs):
         desc = "no transfer syntax requested" if tr_tag == "none" else "requested syntax is the candidate's" if tr_tag == "same" else "requested: " + ", ".join(f"{f}={flags[('T', f)]}" for f in FLAGS) + " / candidate: " + ", ".join(f"{f}={flags[('C', f)]}" for f in FLAGS)
         rep.fail("selector", fq, f"matching loop: {desc} -> {sorted(got)} (must be {want})", f"for {len(bad)} of {n_pts} combinations of requested and candidate transfer syntax the loop does not do what the conversion rule says (a data set may only be sent as it is, or converted between uncompressed syntaxes of the same byte order); first: {desc}: the candidate is {sorted(got)}, it must be '{want}'", mod=am, node=lp)
     rep.floor("abstract transfer-syntax points", n_pts, 100)
+
+
+def check_declared_encoding_mismatch(repo, rep, rule: str) -> None:
+    """send_c_store(): when the data set's actual encoding differs from what its File Meta declares, the transfer
+    syntax the context is chosen by (and conversions start from) is corrected - or the call refuses. The block
+    that does it is evaluated (sa/minipy.py) for all 16 combinations of (implicit VR?, little endian?) of the data
+    set and of the declared syntax: when it does not raise, the syntax it leaves has the byte order the data set
+    is really encoded in - otherwise the data set is converted across byte orders (element values, pixel data keep
+    the old order inside a stream labelled with the new one)."""
+    from ..minipy import Interp, Obj, Raised, Unsupported
+
+    rep.rule(rule, "send_c_store: a data set whose encoding differs from its File Meta is sent from a syntax of its real byte order, or refused (16 combinations evaluated)")
+    am = repo.mod("association")
+    fn = repo.func("association", "Association.send_c_store")
+    fq = "association.Association.send_c_store"
+    blocks = [i for i in walk_no_nested(fn) if isinstance(i, ast.If) and "ds_encoding" in norm(i.test) and "ts_encoding" in norm(i.test)]
+    blocks = [b for b in blocks if not any(o is not b and any(x is b for x in ast.walk(o)) for o in blocks)]  # outermost
+    if len(blocks) != 1:
+        rep.defer(f"{fq}: the declared-versus-actual encoding test was not found ({len(blocks)} candidates)")
+        return
+    blk = blocks[0]
+    named = {}
+    for nm in {n.id for n in ast.walk(blk) if isinstance(n, ast.Name)}:
+        if nm.endswith("Endian") or nm.endswith("LittleEndian") or nm.endswith("BigEndian"):
+            named[nm] = Obj("UID", {"name": nm, "is_implicit_VR": nm.startswith("Implicit"), "is_little_endian": "Little" in nm, "is_deflated": "Deflated" in nm})
+    n = 0
+    for ds_imp in (True, False):
+        for ds_le in (True, False):
+            for ts_imp in (True, False):
+                for ts_le in (True, False):
+                    declared = Obj("UID", {"name": "declared", "is_implicit_VR": ts_imp, "is_little_endian": ts_le, "is_deflated": False})
+                    env = {"ds_encoding": (ds_imp, ds_le), "ts_encoding": (ts_imp, ts_le), "tsyntax": declared, "dataset": Obj("Dataset", {}), "self": Obj("Association", {})}
+                    it = Interp(dict(named))
+                    inst = f"data set {'implicit' if ds_imp else 'explicit'} VR {'little' if ds_le else 'big'} endian, File Meta declares {'implicit' if ts_imp else 'explicit'} VR {'little' if ts_le else 'big'} endian"
+                    try:
+                        it.run([blk], env)
+                    except Unsupported as exc:
+                        rep.defer(f"{fq}: the encoding mismatch block is not evaluable ({exc})")
+                        return
+                    except Raised:
+                        n += 1
+                        continue
+                    n += 1
+                    ts = env["tsyntax"]
+                    le = ts.attrs.get("is_little_endian") if isinstance(ts, Obj) else None
+                    rep.check(le == ds_le, rule, fq, f"[{inst}] -> continues with {ts.attrs.get('name') if isinstance(ts, Obj) else ts!r}", f"the data set is {'little' if ds_le else 'big'} endian but send_c_store goes on with a {'little' if le else 'big'} endian syntax as its source: it is re-encoded across byte orders (PS3.5: only the VR form may change between uncompressed syntaxes of one byte order) - multi-byte values keep the old order inside a stream labelled with the new one", mod=am, node=blk)
+    rep.floor("declared / actual encoding combinations evaluated", n, 16)
